@@ -10,7 +10,7 @@ from vf.ref import parsers
 ID = 'C07'
 RULE = ('(a) API-built caption sets: printable-Unicode text, style dictionaries over the keys the writers know '
         'with metacharacters in values, class names and language codes (including p, default, bottom, r0), '
-        'balanced flat style spans, percentage layouts at set / language / caption / node / span level, 1-3 '
+        'balanced style spans (flat, and a second span nested inside another), percentage layouts at set / language / caption / node / span level, 1-3 '
         'languages; (b) caption sets returned by the six readers on generated documents (rich inline text, '
         'SCC programs). x DFXPWriter / SinglePositioningDFXPWriter / LegacyDFXPWriter x {relativize, '
         'fit_to_screen, video size, write_inline_positioning, force}; in one case of five the writer object has '
@@ -31,7 +31,7 @@ REQUIRE = {'writes_DFXPWriter': 100, 'writes_SinglePositioningDFXPWriter': 50, '
            'inline_positioning_writes': 20, 'force_writes': 20, 'regions_defined': 100,
            'lxml_also_checked': 50, 'unused_regions_possible': 10,
            'sets_from_styled_documents': 50, 'languages_with_concurrent_runs_written_by_a_merging_writer': 50, 'suite_dfxp_outputs_parsed': 20,
-           'writes_by_a_writer_object_used_before': 100}
+           'writes_by_a_writer_object_used_before': 100, 'sets_with_nested_spans': 100}
 DFXP_WRITERS = ['DFXPWriter', 'SinglePositioningDFXPWriter', 'LegacyDFXPWriter']
 NCNAME = re.compile(r'^[A-Za-z_][\w.\-]*$')
 
@@ -64,6 +64,8 @@ def cases(ctx):
         tag = f'D{ctx.shard}.{i}'
         if r < 0.6:
             src = {'kind': 'api', 'set': capsets.rich_set(rng, tag)}
+            if rng.random() < 0.3 and capsets.nest_spans(rng, src['set']):
+                src['nested'] = True
         elif r < 0.78:
             d = (docs.gen_dfxp_styled if rng.random() < 0.5 else docs.gen_sami_styled)(rng, tag)
             src = {'kind': 'reader', 'format': d['format'], 'doc': d['doc'], 'reader_kwargs': {}, 'read_kwargs': {},
@@ -133,6 +135,8 @@ def check(case, ctx):
         if case['src'].get('styled'):
             ctx.count('sets_from_styled_documents')
     ctx.count('writes_' + writer)
+    if case['src'].get('nested'):
+        ctx.count('sets_with_nested_spans')
     if case['opts'].get('write_inline_positioning'):
         ctx.count('inline_positioning_writes')
     kw = {}
